@@ -8,6 +8,26 @@ import ast
 
 from __main__ import Fact, lean_bool, lean_list
 
+import importlib.util
+import os
+import sys
+
+
+def _load_norm():
+    """tools/extractors/normalise_rpc.py, loaded once per process under a name of its own (sys.path is left alone)."""
+    name = "jrv_normalise_rpc"
+    if name not in sys.modules:
+        spec = importlib.util.spec_from_file_location(
+            name, os.path.join(os.path.dirname(os.path.abspath(__file__)), "normalise_rpc.py"))
+        mod = importlib.util.module_from_spec(spec)
+        sys.modules[name] = mod
+        spec.loader.exec_module(mod)
+    return sys.modules[name]
+
+
+norm = _load_norm()
+
+
 PROPERTIES = ["C19"]
 
 
@@ -57,7 +77,7 @@ def _closes_on_error(fn):
         return None
     sends = any(isinstance(m, ast.Attribute) and m.attr in ("send_request", "send_content") for s in t.body for m in ast.walk(s))
     for h in t.handlers:
-        if h.type is None or (isinstance(h.type, ast.Name) and h.type.id in ("Exception", "BaseException")):
+        if h.type is None or set(norm.handler_classes(h)) & set(("Exception", "BaseException")):
             closes = any(_is_self_close(m, al) for s in h.body for m in ast.walk(s))
             reraises = any(isinstance(s, ast.Raise) and s.exc is None for s in h.body)
             return bool(closes and reraises and sends)
@@ -235,16 +255,46 @@ def _raises_transport_error(fn):
 
 
 def _empty_body_none(fn):
-    """_run_request: `if not response: return None`."""
+    """_run_request: on every path on which the transport's reply tests falsy the function returns None and parses
+    nothing — and there is such a path.  Path-sensitive: `if not r: return None else: …`, `if r: return loads(r)` ;
+    `return None`, guard or nested, say the same."""
+    resp = set()
     for n in ast.walk(fn):
-        if isinstance(n, ast.If) and isinstance(n.test, ast.UnaryOp) and isinstance(n.test.op, ast.Not):
-            rets = [s for s in n.body if isinstance(s, ast.Return)]
-            if rets and (rets[0].value is None or (isinstance(rets[0].value, ast.Constant) and rets[0].value.value is None)):
-                return True
-    return False
+        if isinstance(n, ast.Assign) and isinstance(n.value, ast.Call) and isinstance(n.value.func, ast.Attribute) \
+                and n.value.func.attr == "request":
+            resp.update(t.id for t in n.targets if isinstance(t, ast.Name))
+    if not resp:
+        return False
+    falsy = []
+    for p in norm.paths(fn.body):
+        at = None
+        for k, step in enumerate(p.steps):
+            if step[0] != "test":
+                continue
+            t, val = step[1], step[2]
+            while isinstance(t, ast.UnaryOp) and isinstance(t.op, ast.Not):
+                t, val = t.operand, not val
+            if isinstance(t, ast.Name) and t.id in resp and val is False and at is None:
+                at = k
+        if at is not None:
+            falsy.append((p, at))
+    if not falsy:
+        return False
+    for p, at in falsy:
+        if p.end != "return":
+            return False
+        rets = [st[1] for st in p.steps if st[0] == "stmt" and isinstance(st[1], ast.Return)]
+        last = rets[-1] if rets else None
+        if not (isinstance(last, ast.Return) and (last.value is None or (isinstance(last.value, ast.Constant) and last.value.value is None))):
+            return False
+        for step in p.steps[at + 1:]:
+            if any(isinstance(m, ast.Call) and isinstance(m.func, ast.Name) and m.func.id == "loads" for m in ast.walk(step[1])):
+                return False
+    return True
 
 
 def facts(src):
+    src = norm.nsource(src)
     sr = src.func("jsonrpc", "TransportMixIn.single_request")
     rr = src.func("jsonrpc", "ServerProxy._run_request")
     a = _closes_on_error(sr) if sr is not None else None
